@@ -68,7 +68,7 @@ try:
 except Exception:
     ev = {"property_id": "C03", "tier": tier, "seed": 0, "level": "other", "coverage": {"explanation": "govc evidence missing; bounded stand-in only"}, "wall_s": 0}
 ev["coverage"]["bounded_standin"] = bounded
-ev["coverage"]["explanation"] = "The obligations counted above are those of the locked wrapper ds/tree.BTree (Insert/Update/UpdateOrInsert/Delete/Get) proved over an ASSUMED abstract-map contract of the vendored B-tree (/verif/extern/btree.spec). The B-tree itself (ordered-set equivalence, scans, balance, clone isolation) and the scan wrappers are NOT proved: they are outside the verifier's reach (recursive copy-on-write node heap, iterator closures called from inside the recursion) and are covered only by the bounded stand-in reported under bounded_standin."
+ev["coverage"]["explanation"] = "The obligations counted above are (a) the node-local building blocks of the vendored B-tree (slice helpers, items.find, node.split, mutableFor, mutableChild), (b) the lookups node.get / min / max proved relative to the one-level node invariant (ghost key sets), and (c) the locked wrapper ds/tree.BTree (Insert/Update/UpdateOrInsert/Delete/Get) proved over an ASSUMED abstract-map contract of the tree (/verif/extern/btree.spec). The mutating descent of the tree (insert, remove, growChildAndRemove), iterate, and with them ordered-set equivalence, scans, balance and clone isolation as whole-tree statements, and the scan wrappers, are NOT proved: they are covered only by the bounded stand-in reported under bounded_standin."
 ev.setdefault("assumptions", []).append("bounded stand-in for the assumed B-tree contract and the scan wrappers: keys, sequence lengths and degrees as stated in coverage.bounded_standin.rule; not a proof")
 ev["violations"] = int(ev.get("violations", 0)) + viol
 ev["wall_s"] = float(ev.get("wall_s", 0)) + (time.time() - t0)
